@@ -56,11 +56,23 @@ type extractor struct {
 	info     *types.Info
 	byLparen map[token.Pos]ssa.Instruction
 	nlPkg    string
+	// walksChildren: the function iterates over child IEs (a loaded slice element of type *ie.IE is the
+	// receiver of some call); accessors called on the IE *parameter* are then qualified "req." so that
+	// `case ie.X: v := req.X()` (first child of that type of the whole grouped IE) is told apart from
+	// `v := i.X()` (this child)
+	walksChildren bool
 }
 
 func newExtractor(p *core.Program, fn *ssa.Function) *extractor {
 	x := &extractor{p: p, fn: fn, info: p.InfoOf(core.FnPkg(fn)), byLparen: map[token.Pos]ssa.Instruction{}, nlPkg: core.PkgNL}
 	core.Instrs(fn, func(in ssa.Instruction) {
+		if cl, ok := in.(*ssa.Call); ok {
+			if r := core.CallRecv(cl); r != nil {
+				if u, ok := core.Unwrap(r).(*ssa.UnOp); ok && x.isCurrentIE(u) {
+					x.walksChildren = true
+				}
+			}
+		}
 		switch in.(type) {
 		case *ssa.Convert, *ssa.ChangeType, *ssa.MakeInterface:
 			if in.Pos().IsValid() {
@@ -174,7 +186,9 @@ func (x *extractor) describeCall(cl *ssa.Call, depth int) string {
 	name := f.Name() + "()"
 	if recv := core.CallRecv(cl); recv != nil {
 		// accessor on the IE being translated (loop element or IE parameter) -> plain name; else qualified
-		if !x.isCurrentIE(recv) {
+		if _, isParam := core.Unwrap(recv).(*ssa.Parameter); isParam && x.isCurrentIE(recv) && x.walksChildren {
+			name = "req." + name
+		} else if !x.isCurrentIE(recv) {
 			if d := x.describeLeaf(recv, depth+1); d != "" {
 				name = d + "." + name
 			} else {
